@@ -1,14 +1,14 @@
-SPECIFICATION GSpec
+SPECIFICATION Spec
 CONSTANTS
   BufSize = 4096
   MaxEmptyReads = 100
   NilCloseGuarded = TRUE
   GuardTypedNil = TRUE
   CloseOnNilPayload = TRUE
-  PooledBuffer = FALSE
+  PooledBuffer = TRUE
   MaxSeq = 3
   MaxContent = 2
   MaxChunks = 3
   MaxChunk = 2
-  Depth2 = FALSE
+INVARIANTS PropertyHolds
 CHECK_DEADLOCK FALSE
